@@ -1,4 +1,5 @@
 #!/bin/bash
+export VERIF_EVIDENCE_DIR=/verif/work/mutation-evidence; mkdir -p $VERIF_EVIDENCE_DIR
 # usage: mut.sh <patchfile|-> <check ids...>   (patch read from file; applies to /repo, runs checks, reverts)
 # scratch helper for sensitivity experiments; never leaves /repo modified
 pf=$1; shift
